@@ -267,7 +267,9 @@ def run(ctx, config='rel-all'):
                     ctx.ok('R7', '%s: the collection _%d is dropped on the unwind path of the call that may run user code (%s)' % (fn, L, why), 'drop terminator reachable from the unwind target')
                 else:
                     ctx.violation('R7', fn, 'no-drop-on-unwind:_%d' % L, '%s runs user code (%s) while holding a collection that is not dropped if that code panics' % (fn, why), t.get('span'))
-    ctx.floor('R7', n7, 1, 'user-code calls made while a Box constructor holds a partly built collection')
+    # no floor: a Box constructor that delegates the collecting to Vec::from_iter_in has no such call at all (then Vec's own unwind
+    # rules apply); the armed kill test C17-mutG is the positive control of this rule
+    ctx.extra['R7_sites'] = n7
     # ---- R6 views: Deref / DerefMut / Borrow / BorrowMut / AsRef / AsMut of a Box give exactly the boxed value
     PT = ('load', ('fld', ('deref', ('param', 1)), 'boxed::Box.0'), 0)
     n6 = 0
